@@ -160,36 +160,43 @@ def run(ctx):
         blk = H.strip(a["body"])
         # raw_index: `idx.as_number()? as i64`
         raws = [n for n in H.walk(blk) if H.kind(n) == "Let" and H.kind(n.get("pat")) == "Bind" and n.get("init") is not None and H.kind(n["init"]) == "Cast" and n["pat"].get("ty") == "i64"]
-        ok_raw = len(raws) >= 1 and S.contains_head(S.norm(raws[0]["init"], S.Env()), "try")
-        # negative branch: adjusted = LEN as i64 + raw; if adjusted < 0 return Null
-        ifs = [n for n in H.walk(blk) if H.kind(n) == "If" and H.kind(H.strip(n["cond"])) == "Binary" and H.strip(n["cond"])["op"] == "Lt" and H.lit(H.strip(n["cond"])["r"]) and H.lit(H.strip(n["cond"])["r"])["v"] == "0"]
-        ok_neg = len(ifs) == 2
-        len_ok = False
-        null_ok = False
+        ok_raw = True if (len(raws) >= 1 and S.contains_head(S.norm(raws[0]["init"], S.Env()), "try")) else None
+        # negative branch: adjusted = LEN as i64 + raw; if adjusted < 0 -> null   (possibly inside a shared helper, which hir_fn shows inlined)
+        lt0 = lambda n: H.kind(n) == "If" and H.kind(H.strip(n["cond"])) == "Binary" and H.strip(n["cond"])["op"] == "Lt" and H.lit(H.strip(n["cond"])["r"]) and H.lit(H.strip(n["cond"])["r"])["v"] == "0"
+        ifs = [n for n in H.walk(blk) if lt0(n)]
+        ok_neg = True if len(ifs) == 2 else None
+        len_ok = None
+        null_ok = None
         if ok_neg:
             outer = ifs[0]
-            adds = [n for n in H.walk(outer["then"]) if H.kind(n) == "Binary" and n["op"] == "Add"]
-            if adds:
-                lhs = H.strip(adds[0]["l"])  # `<len> as i64` (the cast is looked through by strip)
-                t = S.norm(lhs, S.Env())
-                # the length term: len(list) or count(chars(string))
+            add_sites = scope.sites(blk, lambda n: H.kind(n) == "Binary" and n["op"] == "Add" and any(y is n for y in H.walk(outer["then"])), S.Env())
+            if add_sites:
+                n_, e_, _g = add_sites[0]
+                t = S.norm(H.strip(n_["l"]), e_)  # `<len> as i64` (the cast is looked through by strip)
+                while t and t[0] in ("cast",):
+                    t = t[2]
+                is_chars = bool(t) and t[0] == "call" and t[1] == "count" and len(t) > 2 and t[2][0] == "call" and t[2][1] == "chars"
+                is_len = bool(t) and t[0] == "call" and t[1] == "len"
                 if kind == "List":
-                    len_ok = t[0] == "call" and t[1] == "len"
+                    len_ok = True if is_len else (False if is_chars else None)
                 else:
-                    len_ok = (t[0] == "call" and t[1] == "count" and t[2][0] == "call" and t[2][1] == "chars") or (t[0] == "var")
-                    if t[0] == "var":
-                        # bound earlier: `let char_count = string.chars().count()`
-                        defs = [n for n in H.walk(blk) if H.kind(n) == "Let" and H.kind(n.get("pat")) == "Bind" and n["pat"]["name"] == t[1] and n.get("init") is not None]
-                        tt = S.norm(defs[0]["init"], S.Env()) if defs else None
-                        len_ok = bool(tt) and tt[0] == "call" and tt[1] == "count" and tt[2][0] == "call" and tt[2][1] == "chars"
+                    # a string's length for indexing is its number of characters; `.len()` on the string is its byte length
+                    len_ok = True if is_chars else (False if (is_len and "str" in S.show(t) or is_len and S.contains_call(t, "as_string")) else (False if is_len else None))
             rets = [n for n in H.walk(ifs[1]["then"]) if H.kind(n) == "Ret"]
-            null_ok = bool(rets) and S.norm(rets[0]["e"], S.Env()) == ("path", CORE + "values::Value::Null")
+            if rets:
+                rv = S.norm(rets[0]["e"], S.Env())
+                if rv == ("path", CORE + "values::Value::Null"):
+                    null_ok = True
+                elif rv == ("path", "core::option::Option::None"):
+                    null_ok = None  # the helper answers None; what the caller makes of it is not modelled
+                else:
+                    null_ok = False
         # element access and default
         fin = H.final_expr(blk)
         tf = S.norm(fin, S.Env())
-        acc_ok = tf[0] == "call" and tf[1] == "unwrap_or" and tf[-1] == ("path", CORE + "values::Value::Null") and S.contains_call(tf, ACCESS)
-        ctx.inst("C14.R3", "Access#%s" % kind, bool(ok_raw and ok_neg and len_ok and null_ok and acc_ok),
-                 "raw index truncated to i64: %s; negative adds the %s length: %s; still negative -> null: %s; element via .%s(..).unwrap_or(Null): %s" % (ok_raw, "character" if kind == "String" else "element", len_ok, null_ok, ACCESS, acc_ok), H.loc(a["body"]))
+        acc_ok = True if (tf[0] == "call" and tf[1] == "unwrap_or" and tf[-1] == ("path", CORE + "values::Value::Null") and S.contains_call(tf, ACCESS)) else None
+        ctx.inst("C14.R3", "Access#%s" % kind, S.both(ok_raw, ok_neg, len_ok, null_ok, acc_ok),
+                 "raw index truncated to i64: %s; negative adds the %s length: %s; still negative -> null: %s; element via .%s(..).unwrap_or(Null): %s (None = shape not recognised)" % (ok_raw, "character" if kind == "String" else "element", len_ok, null_ok, ACCESS, acc_ok), H.loc(a["body"]))
     # record access / dot access / input reference: get(key).copied().unwrap_or(Null)
     for label, arm_ in (("Access#Record", sub.get("Record")), ("DotAccess", arms.get("DotAccess")), ("InputReference", arms.get("InputReference"))):
         if arm_ is None:
